@@ -345,6 +345,31 @@ impl Check for C03 {
                 cx.violation("confirmed-payment-not-counted", "a fully valid, confirmed payment did not increase the payment-received counter".to_string(), w);
             }
         }
+        // ---- the payment contract cannot be consulted (endpoint down / rate limited): an otherwise perfect proof is
+        //      not a confirmed payment, nothing may be stored
+        if cx.rng.gen_bool(0.3) {
+            let kind = KINDS[cx.rng.gen_range(0..4)];
+            let item = make_item(&mut cx.rng, kind);
+            let proof = build_proof(&mut cx.rng, &env, item.content, 3, Conds::all(), sim.stub.as_ref().expect("stub"));
+            let record = (item.paid_record)(&proof);
+            sim.stub.as_ref().expect("stub").set_unavailable(true);
+            let pay_before = sim.nodes[0].drv.verif_store_mut().expect("store").verif_snapshot().received_payment_count;
+            let n2 = node.clone();
+            let res = sim.run_op(async move { n2.validate_and_store_record(record).await });
+            sim.stub.as_ref().expect("stub").set_unavailable(false);
+            cx.eval();
+            cx.count("uploads:contract-unreachable");
+            if let Some(res) = res {
+                let stored = sim.get_local(0, &item.key).is_some() || sim.has_key(0, &item.key);
+                let pay_after = sim.nodes[0].drv.verif_store_mut().expect("store").verif_snapshot().received_payment_count;
+                if stored || res.is_ok() {
+                    cx.violation("stored-without-valid-payment:contract-unreachable", format!("a {kind:?} upload was {} while every call to the payment contract failed (result {res:?})", if stored { "stored" } else { "accepted" }), json!({"kind": format!("{kind:?}")}));
+                }
+                if pay_after > pay_before {
+                    cx.violation("payment-counted-without-confirmation", "payment-received counter rose although the contract could not be consulted".to_string(), json!({"kind": format!("{kind:?}")}));
+                }
+            }
+        }
         // ---- a held record of another kind under the same key (a scratchpad and the transactions of one owner share
         //      their record key): an upload with an invalid payment must not replace it
         if cx.rng.gen_bool(0.4) {
